@@ -100,6 +100,8 @@ impl PayloadWriter {
             // If the current metric is too long, we need to truncate everything we just wrote to get us back to the end
             // of the last metric, since the previous parts of the buffer are still valid and could be flushed.
             self.buf.truncate(self.last_offset());
+            #[cfg(metrics_verif)]
+            metrics::__verif::probe("dogstatsd.writer.rejected_for_size");
 
             // Truncating back to the end of the last committed payload also removed the length prefix placeholder
             // of the payload we just discarded, so put it back for the next payload.
